@@ -61,7 +61,13 @@ class RefBlock:
 
     def add(self, T, v):
         if v in self.t[T]:
-            return self.t[T].index(v)
+            # equal values can be present several times (add_value, the reader's path): the table's reverse index
+            # knows the one stored last
+            return len(self.t[T]) - 1 - self.t[T][::-1].index(v)
+        self.t[T].append(v)
+        return len(self.t[T]) - 1
+
+    def addv(self, T, v):
         self.t[T].append(v)
         return len(self.t[T]) - 1
 
@@ -97,6 +103,8 @@ def run_ref(toks):
                 out.append(("w", B[int(a[1])].sig()))
             elif op[0] == "a":
                 out.append(str(B[int(a[1])].add(op[1:], a[2])))
+            elif op[0] == "v":
+                out.append(str(B[int(a[1])].addv(op[1:], a[2])))
             elif op[0] == "g":
                 out.append(B[int(a[1])].get(op[1:], int(a[2])))
             elif op[0] == "s":
